@@ -29,8 +29,11 @@ CHECKS = {
         "slope becomes the next piece's start slope; three past defects lived there) is modelled (DV.SlopeCache) and proved consistent after "
         "EVERY history of completed and abandoned calls (start_slope_is_rhs_after_every_history), tied to the code by replaying call sequences "
         "with jumps, repeated starts and calls abandoned by a fault at a random evaluation. Measured on the implementation, not proved: the end "
-        "slope a step computes equals the right-hand side at its end state (C02 gives it for the explicit model), reproduction of recorded states, array = scalar queries, and the O(h^4) "
-        "interpolation bound (Peano kernel bound cited) against the closed-form solution.",
+        "slope a step computes equals the right-hand side at its end state (C02 gives it for the explicit model), reproduction of recorded states, array = scalar queries. The O(h^4) clause is a theorem about the regenerated piece: for "
+        "every four times differentiable f (fourth derivative f4) whose end values and end slopes are the data of the piece, f(x) - H(x) = f4(xi)/24 (x-t0)^2 (x-t1)^2 "
+        "for some xi inside the piece, either orientation (interpolation_error_smooth: four rounds of Rolle's theorem), hence at most "
+        "max|f4| h^4/384 (interpolation_error_smooth_bound), with the exact error formula and sharpness of the constant on quartics "
+        "(interpolation_error_on_quartic[_bound,_sharp]); the error against the closed-form solution is measured as well.",
    note="Trusted: Lean kernel, standard axioms, translate.py (Hermite), harness. The slope caches of the integrators and the "
         "container's add/remove history are exercised, not modelled.",
    technique="Lean 4 proof (bisection specification lifted to both storage orders; generated Hermite identities) + bit-exact lookup correspondence + closed-form measurements",
@@ -183,7 +186,10 @@ CHECKS = {
         "integrator, the event functions - a raising one drops the step -, the callbacks and the nested call of a terminal event, the "
         "samples and events recorded before the call stay in place; dense_pieces_are_the_recorded_steps[_backward]: with dense output on, "
         "the container holds exactly one piece per recorded step after every exit of the call), replayed bit for bit on fault-heavy "
-        "operation sequences incl. the dense-output knots.",
+        "operation sequences incl. the dense-output knots. With the STATES: for explicit one-step methods the recorded states are a function of "
+        "the recorded times (DV.Run.ysOf), so the samples left by a fault are exactly those of the fault-free run stopped there "
+        "(fault_leaves_prefix_of_samples); tied to the code by harness/runsim.py (fault at a random right-hand-side evaluation of fixed-step "
+        "runs vs the whole-run model incl. the resumed call; adaptive explicit runs, also abandoned ones, judged step by step in exact arithmetic).",
    note="Trusted: Lean kernel, standard axioms, harness. Outside the models: integrator-internal state after a fault, dense-output "
         "container (checked by the enumeration on the implementation only).",
    technique="Lean 4 proof (induction over the fault position) + crash-point enumeration + bit-exact replay",
